@@ -26,6 +26,18 @@ CHECKS = {
  'C10': ('exploration', 'Scope-tree and fragment programs x 4 option sets x every preserve specification drawn from the names the renamer would otherwise respell (subsets <=2 + full, list / single string / locals / globals / both), four literal __all__ spellings and awslambda entry points: preserved bindings keep their spelling at every site, the binding bijection still holds, and nothing but spellings changes.',
          'bounded exhaustive enumeration of programs x preserve specifications; alignment + independent resolution',
          'Lists of <=3 names taken from the program itself.'),
+ 'C05': ('exploration', 'G_stmt (19 block positions x 1-2 statements from 61 statement forms, dataclass/NamedTuple/TypedDict field classes, shadowing preambles) and the fragment programs x every option set within 1 (quick) / 2 (thorough) toggles of all-off, all-on and default over the 18 switches, plus all 2^18 subsets (thorough) / all <=3-subsets of the structural switches (quick) on a program that triggers every transform. (1) canon_O(P) == canon_O(minify(P,O)) strictly, where canon_O is an independent reference implementation of the documented rewrites with their side conditions; (2) the output behaves like the original under the optimisation level the options presuppose (-O / -OO).',
+         'bounded exhaustive enumeration of statement blocks x option sets; canonical-form comparison against a reference implementation of the documented rewrites + differential execution',
+         'mc/oracle/rewrite_rules.py is the reading of docs/source/transforms/*.rst; classifier applied to option sets without renaming/hoisting (those are C03/C06), behaviour to all.'),
+ 'C07': ('exploration', 'All pairs of 92 signed literal operands x 13 operators, both associations at depth 2 (12- / 23-operand alphabets), every foldable depth-1 expression in 51 syntactic contexts, under every installed interpreter: wherever the folded output differs from the unfolded one both sides are evaluated by the interpreter and must agree in type, value, sign of zero and infinities; raising / NaN originals must be left alone; the result must not be longer.',
+         'bounded exhaustive enumeration of literal expressions; independent evaluation of every folded sub-expression',
+         'Operand alphabet of mc/gen/lits.py; shifts by >= 2^31 excluded (the folder builds the value, which takes minutes and gigabytes on interpreters without the int->str limit - a resource issue outside the property).'),
+ 'C08': ('exploration', 'Union of all program enumerators (grammar table, numbers incl. 4300-digit boundaries, string placements, scope trees, fragments, hoisting and taint programs, literal arithmetic) x option sets (5 broad sets everywhere, dev(1) around default/all-on/all-off and the full rename group on small programs), all token strings of <=4/5 tokens from a 24-token alphabet for the invalid side, and every installed interpreter: compile(S) ok => minify returns and compile(out) ok; ast.parse(S) fails => same exception class from minify.',
+         'bounded exhaustive enumeration over the union of program spaces x option sets x interpreters',
+         'compile() of the running interpreter decides compilable; old interpreters are not fed N**N / N<<N with huge N because their own compile() folds them without limit.'),
+ 'C12': ('exploration', 'Every string/bytes over the quoting character classes (length <=3-5) in 28 literal placements, ~70 break-out payloads in every placement (escaped and raw), literal arithmetic and non-literal operands next to literals, x 2-3 option sets, each minify call under a sys.addaudithook recorder: every executed code object must be closed (no names/locals/free variables/nested code), no import outside python_minifier, no open/os/subprocess/socket/ctypes event; a sentinel function would flip a flag if input text ran.',
+         'bounded exhaustive enumeration of literal contents x placements under an audit-hook monitor',
+         'Audit hooks of CPython >= 3.8 see every exec/compile/import/open; the parser\'s own lazy import of unicodedata and its lookup of the pseudo file name for SyntaxError display are whitelisted.'),
 }
 
 
